@@ -34,6 +34,9 @@ import (
 // ErrAsyncNoSpace is returned when an write queue full if not writeForever flags.
 var ErrAsyncNoSpace = errors.New("async write queue is full")
 
+// ErrChannelClosed is returned by writes on a channel that was closed without an error.
+var ErrChannelClosed = errors.New("channel is closed")
+
 // Channel is defines a server-side-channel & client-side-channel
 type Channel interface {
 	// ID channel id
@@ -177,7 +180,7 @@ func (c *channel) Write(message Message) error {
 	if !c.IsActive() {
 		select {
 		case <-c.ctx.Done():
-			return c.closeError()
+			return c.doneError()
 		}
 	}
 
@@ -262,6 +265,10 @@ func (c *channel) Write1(p []byte) (n int, err error) {
 // CtxWrite1 channels with asynchronous write enabled, writes will block until the write is successfully sent to the queue or times out.
 // for synchronous write channels, SetDeadline will be called to ensure that the blocking write operation is interrupted after a timeout.
 func (c *channel) CtxWrite1(ctx context.Context, p []byte) (n int, err error) {
+	if err = c.closeError(); nil != err {
+		return 0, err
+	}
+
 	// enable async write
 	if nil != c.writeQueue {
 		wn, err := c.asyncWrite(ctx, p, true)
@@ -289,6 +296,10 @@ func (c *channel) CtxWrite1(ctx context.Context, p []byte) (n int, err error) {
 // CtxWritev channels with asynchronous write enabled, writes will block until the write is successfully sent to the queue or times out.
 // for synchronous write channels, SetDeadline will be called to ensure that the blocking write operation is interrupted after a timeout.
 func (c *channel) CtxWritev(ctx context.Context, pv [][]byte) (n int64, err error) {
+	if err = c.closeError(); nil != err {
+		return 0, err
+	}
+
 	// enable async write
 	if nil != c.writeQueue {
 		wn, err := c.asyncWritev(ctx, pv)
@@ -400,7 +411,7 @@ func (c *channel) asyncWrite(ctx context.Context, p []byte, clone bool) (int64, 
 		case <-ctx.Done():
 			return 0, ctx.Err()
 		case <-c.ctx.Done():
-			return 0, c.closeError()
+			return 0, c.doneError()
 		case c.writeQueue <- packet:
 			// write queue
 		}
@@ -409,7 +420,7 @@ func (c *channel) asyncWrite(ctx context.Context, p []byte, clone bool) (int64, 
 		case <-ctx.Done():
 			return 0, ctx.Err()
 		case <-c.ctx.Done():
-			return 0, c.closeError()
+			return 0, c.doneError()
 		case c.writeQueue <- packet:
 			// write queue
 		default:
@@ -451,7 +462,7 @@ func (c *channel) asyncWritev(ctx context.Context, p [][]byte) (int64, error) {
 		case <-ctx.Done():
 			return 0, ctx.Err()
 		case <-c.ctx.Done():
-			return 0, c.closeError()
+			return 0, c.doneError()
 		case c.writeQueue <- packet:
 			// write queue
 		}
@@ -460,7 +471,7 @@ func (c *channel) asyncWritev(ctx context.Context, p [][]byte) (int64, error) {
 		case <-ctx.Done():
 			return 0, ctx.Err()
 		case <-c.ctx.Done():
-			return 0, c.closeError()
+			return 0, c.doneError()
 		case c.writeQueue <- packet:
 			// write queue
 		default:
@@ -480,9 +491,22 @@ func (c *channel) asyncWritev(ctx context.Context, p [][]byte) (int64, error) {
 // closeError returns the error the channel was closed with, nil while Close has not stored it yet.
 func (c *channel) closeError() error {
 	if closeStored == atomic.LoadInt32(&c.closed) {
-		return c.closeErr
+		if nil != c.closeErr {
+			return c.closeErr
+		}
+		// closed without an error: a write must still fail
+		return ErrChannelClosed
 	}
 	return nil
+}
+
+// doneError returns the error of a write that found the channel context done.
+func (c *channel) doneError() error {
+	if err := c.closeError(); nil != err {
+		return err
+	}
+	// the parent context ended and Close has not stored its error yet
+	return c.ctx.Err()
 }
 
 // IsActive return true if the Channel is active and so connected
